@@ -84,6 +84,8 @@ impl TreeGuard {
 #[verifier::external_body] fn acquire_btree_lock(t: &SharedTree) -> (r: Result<TreeGuard, Opq>) { unimplemented!() }
 
 pub enum IndexData { InMemory { data: KeyMap }, DiskBacked { btree: SharedTree, page_manager: Opq } }
+// IndexMetadata reduced (R2): the other free variable of the lifted steps
+pub struct IndexMetadata { pub index_name: Str, pub table_name: Str, pub unique: bool, pub columns: Vec<IndexColumn> }
 
 /// position p taken out of key k (the key disappears with its last position)
 pub open spec fn ix_without(m: Ix, k: Key, p: usize) -> Ix {
@@ -101,9 +103,9 @@ pub open spec fn ix_with(m: Ix, k: Key, p: usize) -> Ix {
 //@@ update_step
 //@@ delete_step
 
-fn canary_update(index_data: &mut IndexData, old_key_values: Vec<SqlValue>, new_key_values: Vec<SqlValue>, row_index: usize)
+fn canary_update(index_data: &mut IndexData, metadata: &IndexMetadata, old_key_values: Vec<SqlValue>, new_key_values: Vec<SqlValue>, row_index: usize)
 {
-    update_step(index_data, old_key_values, new_key_values, row_index);
+    update_step(index_data, metadata, old_key_values, new_key_values, row_index);
     assert(false); // CANARY
 }
 fn canary_key(col: &IndexColumn, table_schema: &TableSchema, row: &Row)
@@ -146,7 +148,7 @@ ITEMS = {
     'insert_step': dict(
         file=_F, path='impl IndexManager::fn add_to_indexes_for_insert',
         fragment=dict(kind='match', index=0, expect_scrutinee='index_data',
-                      sig='fn insert_step(index_data: &mut IndexData, key_values: Vec<SqlValue>, row_index: usize)'),
+                      sig='fn insert_step(index_data: &mut IndexData, metadata: &IndexMetadata, key_values: Vec<SqlValue>, row_index: usize)'),
         rewrites=_STEPRW,
         contract='''
     ensures
@@ -156,7 +158,7 @@ ITEMS = {
     'update_step': dict(
         file=_F, path='impl IndexManager::fn update_indexes_for_update',
         fragment=dict(kind='match', index=0, expect_scrutinee='index_data',
-                      sig='fn update_step(index_data: &mut IndexData, old_key_values: Vec<SqlValue>, new_key_values: Vec<SqlValue>, row_index: usize)'),
+                      sig='fn update_step(index_data: &mut IndexData, metadata: &IndexMetadata, old_key_values: Vec<SqlValue>, new_key_values: Vec<SqlValue>, row_index: usize)'),
         rewrites=_STEPRW,
         contract='''
     ensures
@@ -166,7 +168,7 @@ ITEMS = {
     'delete_step': dict(
         file=_F, path='impl IndexManager::fn update_indexes_for_delete',
         fragment=dict(kind='match', index=0, expect_scrutinee='index_data',
-                      sig='fn delete_step(index_data: &mut IndexData, key_values: Vec<SqlValue>, row_index: usize)'),
+                      sig='fn delete_step(index_data: &mut IndexData, metadata: &IndexMetadata, key_values: Vec<SqlValue>, row_index: usize)'),
         rewrites=_STEPRW,
         contract='''
     ensures
@@ -186,7 +188,7 @@ OBLIGATIONS = {
 }
 CANARIES = ['canary_update', 'canary_key']
 TRUSTED = [
-    'R6: the per-index step (the `match index_data { .. }` expression) and the key-building closures (`|col| { .. }`) are lifted out of the three maintenance functions; what surrounds them is NOT under contract: the loop over the registry (`for (index_name, metadata) in &self.indexes`, the table-name filter, `self.index_data.get_mut(index_name)`), `.iter().map(closure).collect()` over metadata.columns (assumed: one component per index column, in definition order), and the `old_key_values != new_key_values` guard of the update step',
+    'R6: the per-index step (the `match index_data { .. }` expression, with its free variables index_data, metadata, the key vectors and row_index as parameters) and the key-building closures (`|col| { .. }`) are lifted out of the three maintenance functions; what surrounds them is NOT under contract: the loop over the registry (`for (index_name, metadata) in &self.indexes`, the table-name filter, `self.index_data.get_mut(index_name)`), `.iter().map(closure).collect()` over metadata.columns (assumed: one component per index column, in definition order), and the `old_key_values != new_key_values` guard of the update step',
     'external_body KeyMap: BTreeMap<Vec<SqlValue>, Vec<usize>> through push_at (entry().or_insert_with(Vec::new).push()), contains_key / retain_ne / is_empty_at (the list returned by get_mut: retain(|&idx| idx != p), is_empty()), remove - R11 rewrite of the get_mut block',
     'SqlValue, Str, Opq, TableSchema opaque (TableSchema::get_column_index: uninterpreted function col_index of the name); norm / trunc = normalize_for_comparison / apply_prefix_truncation uninterpreted (external_body stubs); Option::expect rewritten to expect_col, which REQUIRES Some (a missing index column would panic: precondition col_ok, established by CREATE INDEX validation); Row / IndexColumn reduced to the fields read',
     'the disk-backed arm (SharedTree, TreeGuard, acquire_btree_lock) is opaque and NOT under contract; observed there: update calls BTreeIndex::delete(old_key), which is handed no row position',
